@@ -24,7 +24,7 @@ LEVEL = "exploration"
 RULE = (
     "Style (27) x EOL {LF, CRLF, CR} x BOM x first-line declaration (shebang / <?xml / <?php / cabal-version / % !TEX where the style documents one) x "
     "0..6 pre-lines and 0..8 post-lines from {code, indented code, blank runs, comment lines in the file's own and in foreign styles, form-feed and "
-    "U+2028 lines, trailing-blank lines} x existing header {absent, single-line block, multi-line block} at top or in the middle x final newline or "
+    "U+2028 lines, trailing-blank lines} x existing header {absent, single-line block, multi-line block, block whose closing delimiter is followed by code on the same line} at top or in the middle x final newline or "
     "not x replace / --no-replace.  Every outside line carries a unique token.  Oracle: outside lines are found byte-for-byte and in order around one "
     "inserted block; only blank lines / trailing blanks adjacent to the block may differ; BOM first, declaration first line, all EOLs as in the input, "
     "final newline kept.  Non-trivial = >= 2 outside lines and (existing header or declaration or BOM or non-LF EOL); distinct by file content + options."
@@ -109,6 +109,8 @@ def case(draw):
         post = post + [decl, "int after_dup; ~299~"]
     if hinfo:
         hinfo["trail"] = draw(st.lists(st.sampled_from(["", "", " ", "  ", "\t", " \t "]), min_size=6, max_size=6))
+        # code on the same line as the delimiter that closes an existing block header
+        hinfo["tailcode"] = draw(st.integers(0, 5)) == 0
     return {"style": style, "eol": eol, "bom": bom, "decl": decl, "header": header, "hinfo": hinfo, "pre": pre, "post": post,
             "final_newline": draw(st.sampled_from([True, True, False])), "no_replace": draw(st.integers(0, 3)) == 0, "req": req}
 
@@ -121,7 +123,17 @@ def header_lines(style, form, hinfo):
         out = S.wrap_single(style, body)
     trail = hinfo.get("trail") or []
     # trailing blanks on lines of the existing header (never part of a tag value)
-    return [ln + (trail[i % len(trail)] if trail else "") for i, ln in enumerate(out)]
+    out = [ln + (trail[i % len(trail)] if trail else "") for i, ln in enumerate(out)]
+    if hinfo.get("tailcode") and is_block(style, form) and len(out) >= 2:
+        out[-1] = out[-1].rstrip() + " " + TAILCODE
+    return out
+
+
+TAILCODE = "int trailing_code; ~950~"
+
+
+def is_block(style, form):
+    return bool(form == "multi" and S.has_multi(style) or not S.has_single(style))
 
 
 def build(c):
@@ -177,10 +189,12 @@ def check(ctx, c):
         args.append(name)
         res = cli.run(args, root)
         in_phys = physical(text[1:] if c["bom"] else text, eol)
-        O = [ln for k, ln in enumerate(in_phys) if c["no_replace"] or k not in header_idx]
+        tailcode = bool(hl) and hl[-1].endswith(TAILCODE)
+        O = [ln for k, ln in enumerate(in_phys) if c["no_replace"] or tailcode or k not in header_idx]
+        labels_extra = ["tailcode-after-closing-delimiter"] if tailcode else []
         ctx.count(text + repr(args), nontrivial=len([x for x in O if x.strip()]) >= 2 and bool(hl or c["decl"] or c["bom"] or eol != "\n"),
                   labels=[f"style:{style}", f"eol:{eol!r}", f"bom:{c['bom']}", f"decl:{bool(c['decl'])}", f"header:{c['header']}", f"no_replace:{c['no_replace']}",
-                          f"final_newline:{c['final_newline']}", f"exit:{res.code}"],
+                          f"final_newline:{c['final_newline']}", f"exit:{res.code}"] + labels_extra,
                   sample={"name": name, "input": text[:400], "args": args})
         if res.crash is not None:
             ctx.label("crash-left-to-C16")
@@ -270,6 +284,17 @@ def check(ctx, c):
             i2, j2 = align(False)
             if problems(i2, j2) is None:
                 i, j, msg = i2, j2, None
+        if msg and tailcode and not c["no_replace"]:
+            # the other admissible reading: the block is taken for the header and replaced; the code after its
+            # closing delimiter is outside the comment and has to survive, wherever it is put
+            O = [ln for k, ln in enumerate(in_phys) if k not in header_idx]  # noqa: N806
+            if out_body.count(TAILCODE) == 1:
+                for pf in (True, False):
+                    i3, j3 = align(pf)
+                    lost = [x for x in O[i3:len(O) - j3] if x.strip()]
+                    if not lost:
+                        i, j, msg = i3, j3, None
+                        break
         if msg:
             ctx.fail(case_d, msg)
         middle = out_lines[i:len(out_lines) - j]
